@@ -28,13 +28,13 @@ theorem fresh_of_sok {P s} (hP : Wf P) (hI : Inv P s) :
     obtain ⟨hca, hsok⟩ := ok.i3 hs o ho
     cases d with
     | inp i =>
-      have hinfo : depInfo s o.dep = some ⟨(s.inp i).val, (s.inp i).ca, (s.inp i).dur⟩ := by rw [hd]; rfl
+      have hinfo : depInfo s o.dep = some (s.inp i).res := by rw [hd]; rfl
       have := (ok.i2 o ho _ hinfo (hca _ hinfo)).1
       simp only [semDep]
       rw [← hx]; exact this
     | qry q' =>
       obtain ⟨hlt, m', hm', _⟩ := ok.i5 o q' ho hd
-      have hinfo : depInfo s o.dep = some ⟨m'.value, m'.ca, m'.dur⟩ := by rw [hd]; simp [depInfo, hm']
+      have hinfo : depInfo s o.dep = some m'.res := by rw [hd]; simp [depInfo, hm']
       have hval := (ok.i2 o ho _ hinfo (hca _ hinfo)).1
       rw [hd] at hsok
       obtain ⟨m2, hm2, hs2⟩ := hsok
@@ -43,17 +43,56 @@ theorem fresh_of_sok {P s} (hP : Wf P) (hI : Inv P s) :
       simp only [semDep]
       rw [← this, ← hx]; exact hval
 
+/-- … and every recorded read of such a memo holds the current semantic value of its dependency -/
+theorem obs_sem_of_sok {P s} (hP : Wf P) (hI : Inv P s) {q m} (hm : s.memos q = some m) (hs : SOK s m) :
+    ∀ d x, (d, x) ∈ obsPairs m.obs → semDep P s.inp d = x := by
+  have ok := hI.memo q m hm
+  intro d x hmem
+  obtain ⟨o, ho, hd, hx⟩ := mem_obsPairs hmem
+  obtain ⟨hca, hsok⟩ := ok.i3 hs o ho
+  cases d with
+  | inp i =>
+    have hinfo : depInfo s o.dep = some (s.inp i).res := by rw [hd]; rfl
+    have := (ok.i2 o ho _ hinfo (hca _ hinfo)).1
+    simp only [semDep]
+    rw [← hx]; exact this
+  | qry q' =>
+    obtain ⟨_, m', hm', _⟩ := ok.i5 o q' ho hd
+    have hinfo : depInfo s o.dep = some m'.res := by rw [hd]; simp [depInfo, hm']
+    have hval := (ok.i2 o ho _ hinfo (hca _ hinfo)).1
+    rw [hd] at hsok
+    obtain ⟨m2, hm2, hs2⟩ := hsok
+    rw [hm'] at hm2; cases hm2
+    have := fresh_of_sok hP hI q' m' hm' hs2
+    simp only [semDep]
+    rw [← this, ← hx]; exact hval
+
+/-- its accumulated values are the from-scratch pushes -/
+theorem acc_of_sok {P s} (hP : Wf P) (hI : Inv P s) {q m} (hm : s.memos q = some m) (hs : SOK s m) :
+    m.acc = pushesOf P s.inp q := by
+  have ok := hI.memo q m hm
+  rw [← ok.repAcc]
+  exact replayAcc_sem _ (P q) (obsPairs m.obs) m.value ok.rep (obs_sem_of_sok hP hI hm hs)
+
+/-- and the queries it read are the from-scratch callees, in order -/
+theorem calls_of_sok {P s} (hP : Wf P) (hI : Inv P s) {q m} (hm : s.memos q = some m) (hs : SOK s m) :
+    (m.obs.map fun o => depCall o.dep).flatten = callsOf P s.inp q := by
+  have ok := hI.memo q m hm
+  have := calls_sem _ (P q) (obsPairs m.obs) m.value ok.rep (obs_sem_of_sok hP hI hm hs)
+  simp only [obsPairs, List.map_map] at this
+  exact this
+
 structure FetchSpec (P : Nat → Body) (r : Nat) (fe : FetchFn) : Prop where
   ok : ∀ s q, q < r → Inv P s →
     Inv P (fe s q).1 ∧ Ext s (fe s q).1 r ∧ (fe s q).2.val = sem P s.inp q ∧
-    ∃ m, (fe s q).1.memos q = some m ∧ m.va = s.cur ∧ m.value = (fe s q).2.val ∧
-      m.ca = (fe s q).2.ca ∧ m.dur = (fe s q).2.dur
-  hot : ∀ s q m, q < r → s.memos q = some m → m.va = s.cur → fe s q = (s, ⟨m.value, m.ca, m.dur⟩)
+    ∃ m, (fe s q).1.memos q = some m ∧ m.va = s.cur ∧ m.res = (fe s q).2
+  hot : ∀ s q m, q < r → s.memos q = some m → m.va = s.cur → fe s q = (s, m.res)
 
 structure McaSpec (P : Nat → Body) (r : Nat) (mc : McaFn) : Prop where
   ok : ∀ s q rev, q < r → Inv P s → (∃ m, s.memos q = some m) →
     Inv P (mc s q rev).1 ∧ Ext s (mc s q rev).1 r ∧
-    ∃ m, (mc s q rev).1.memos q = some m ∧ m.va = s.cur ∧ (mc s q rev).2 = decide (m.ca > rev)
+    ∃ m, (mc s q rev).1.memos q = some m ∧ m.va = s.cur ∧ (mc s q rev).2.1 = decide (m.ca > rev) ∧
+      (mc s q rev).2.2 = (m.hasAcc || m.accIn)
 
 theorem readDep_ok {P r fe} (hfe : FetchSpec P r fe) {s : State} {d : Dep} (hI : Inv P s)
     (hr : ∀ q', d = .qry q' → q' < r) :
@@ -66,11 +105,11 @@ theorem readDep_ok {P r fe} (hfe : FetchSpec P r fe) {s : State} {d : Dep} (hI :
     exact ⟨hI, Ext.refl s r, rfl, trivial, rfl, hI.inp_le i⟩
   | qry q =>
     simp only [readDep]
-    obtain ⟨g1, g2, g3, m, g4, g5, g6, g7, g8⟩ := hfe.ok s q (hr q rfl) hI
+    obtain ⟨g1, g2, g3, m, g4, g5, g6⟩ := hfe.ok s q (hr q rfl) hI
     have mok := g1.memo q m g4
     refine ⟨g1, g2, g3, ⟨m, g4, by rw [g5, g2.cur]⟩, ?_, ?_⟩
-    · simp only [depInfo, g4, Option.map, g6, g7, g8]
-    · rw [← g7, ← g5]; exact mok.ca_va
+    · simp only [depInfo, g4, Option.map, g6]
+    · rw [← g6, ← g5]; exact mok.ca_va
 
 theorem readDep_hot {P r fe} (hfe : FetchSpec P r fe) {s d x} (hh : hot s d)
     (hi : depInfo s d = some x) (hr : ∀ q', d = .qry q' → q' < r) :
@@ -84,24 +123,31 @@ theorem readDep_hot {P r fe} (hfe : FetchSpec P r fe) {s d x} (hh : hot s d)
     simp only [readDep]
     exact hfe.hot s q m (hr q rfl) hm hv
 
+/-- what `run_ok` knows about one read `o` of the execution that ended in state `t` with frame `f` -/
+structure ReadOk (r : Nat) (t : State) (f : Frame) (o : Obs) : Prop where
+  hot : hot t o.dep
+  info : ∃ x, depInfo t o.dep = some x ∧ x.val = o.val ∧ x.ca ≤ f.ca ∧ f.dur ≤ x.dur ∧
+    (o.recd = false → 3 ≤ x.dur ∧ x.hasAcc = false ∧ x.accIn = false) ∧
+    (f.accIn = false → x.hasAcc = false ∧ x.accIn = false)
+  below : ∀ q', o.dep = .qry q' → q' < r
+
 theorem run_ok {P r fe} (hfe : FetchSpec P r fe) : ∀ b, WfB r b → ∀ s f, Inv P s → f.ca ≤ s.cur →
     Inv P (runBody fe b s f).1 ∧ Ext s (runBody fe b s f).1 r ∧
     (runBody fe b s f).2.2 = evalB (semDep P s.inp) b ∧
     f.ca ≤ (runBody fe b s f).2.1.ca ∧ (runBody fe b s f).2.1.ca ≤ s.cur ∧
     (runBody fe b s f).2.1.dur ≤ f.dur ∧
+    (f.accIn = true → (runBody fe b s f).2.1.accIn = true) ∧
     ∃ new, (runBody fe b s f).2.1.obs = f.obs ++ new ∧
       replay b (obsPairs new) = some (runBody fe b s f).2.2 ∧
-      ∀ o, o ∈ new → hot (runBody fe b s f).1 o.dep ∧
-        (∃ x, depInfo (runBody fe b s f).1 o.dep = some x ∧ x.val = o.val ∧
-          x.ca ≤ (runBody fe b s f).2.1.ca ∧ (runBody fe b s f).2.1.dur ≤ x.dur ∧
-          (o.recd = false → 3 ≤ x.dur)) ∧
-        (∀ q', o.dep = .qry q' → q' < r) := by
+      (runBody fe b s f).2.1.acc = f.acc ++ replayAcc b (obsPairs new) ∧
+      ∀ o, o ∈ new → ReadOk r (runBody fe b s f).1 (runBody fe b s f).2.1 o := by
   intro b hb
   induction hb with
   | ret v =>
     intro s f hI hf
     simp only [runBody]
-    exact ⟨hI, Ext.refl s r, rfl, Nat.le_refl _, hf, Nat.le_refl _, [], by simp, by simp [replay, obsPairs], by simp⟩
+    exact ⟨hI, Ext.refl s r, rfl, Nat.le_refl _, hf, Nat.le_refl _, id, [], by simp,
+      by simp [replay, obsPairs], by simp [replayAcc], by simp⟩
   | read d k hd _ ih =>
     intro s f hI hf
     simp only [runBody]
@@ -109,45 +155,65 @@ theorem run_ok {P r fe} (hfe : FetchSpec P r fe) : ∀ b, WfB r b → ∀ s f, I
     generalize hrd : readDep fe s d = rd at g1 g2 g3 g4 g5 g6
     have hf' : (f.push d rd.2).ca ≤ rd.1.cur := by
       simp only [Frame.push]; rw [g2.cur]; exact Nat.max_le.mpr ⟨hf, g6⟩
-    obtain ⟨h1, h2, h3, h4, h5, h5d, new, h6, h7, h8⟩ := ih rd.2.val rd.1 (f.push d rd.2) g1 hf'
-    refine ⟨h1, Ext.trans g2 h2, ?_, ?_, by rw [← g2.cur]; exact h5, ?_,
-      ⟨d, rd.2.val, decide (rd.2.dur ≠ 3)⟩ :: new, ?_, ?_, ?_⟩
+    obtain ⟨h1, h2, h3, h4, h5, h5d, h5a, new, h6, h7, h7a, h8⟩ := ih rd.2.val rd.1 (f.push d rd.2) g1 hf'
+    refine ⟨h1, Ext.trans g2 h2, ?_, ?_, by rw [← g2.cur]; exact h5, ?_, ?_,
+      ⟨d, rd.2.val, decide (rd.2.dur ≠ 3) || (rd.2.hasAcc || rd.2.accIn)⟩ :: new, ?_, ?_, ?_, ?_⟩
     · rw [h3, g2.inp]; simp only [evalB, g3]
     · exact Nat.le_trans (by simp only [Frame.push]; exact Nat.le_max_left _ _) h4
     · exact Nat.le_trans h5d (by simp only [Frame.push]; exact Nat.min_le_left _ _)
+    · intro ha; apply h5a; simp only [Frame.push, ha, Bool.true_or]
     · rw [h6]; simp [Frame.push]
     · simp only [obsPairs, List.map_cons, replay, if_true]
       exact h7
+    · rw [h7a]; simp only [obsPairs, List.map_cons, replayAcc, Frame.push]
     · intro o hm
       simp only [List.mem_cons] at hm
       rcases hm with hm | hm
       · subst hm
-        simp only
-        refine ⟨hot_ext h2 g4, ⟨rd.2, depInfo_hot_ext h2 g4 g5, rfl, ?_, ?_, ?_⟩, hd⟩
+        refine ⟨hot_ext h2 g4, ⟨rd.2, depInfo_hot_ext h2 g4 g5, rfl, ?_, ?_, ?_, ?_⟩, hd⟩
         · exact Nat.le_trans (by simp only [Frame.push]; exact Nat.le_max_right _ _) h4
         · exact Nat.le_trans h5d (by simp only [Frame.push]; exact Nat.min_le_right _ _)
         · intro hrec
-          have : rd.2.dur = 3 := by
-            have := of_decide_eq_false hrec
-            exact Decidable.of_not_not this
-          rw [this]; exact Nat.le_refl 3
+          simp only [Bool.or_eq_false_iff, decide_eq_false_iff_not, Decidable.not_not] at hrec
+          refine ⟨by rw [hrec.1]; exact Nat.le_refl 3, hrec.2.1, hrec.2.2⟩
+        · intro hfin
+          have : (f.push d rd.2).accIn = false := by
+            cases hx : (f.push d rd.2).accIn with
+            | false => rfl
+            | true => rw [h5a hx] at hfin; cases hfin
+          simp only [Frame.push, Bool.or_eq_false_iff] at this
+          exact this.2
       · exact h8 o hm
+  | push v k _ ih =>
+    intro s f hI hf
+    simp only [runBody]
+    obtain ⟨h1, h2, h3, h4, h5, h5d, h5a, new, h6, h7, h7a, h8⟩ := ih s (f.accumulate v) hI hf
+    refine ⟨h1, h2, by rw [h3]; rfl, h4, h5, h5d, h5a, new, h6, by simp only [replay]; exact h7, ?_, h8⟩
+    rw [h7a]; simp [Frame.accumulate, replayAcc]
 
 /-- Lemma B (semantic form): re-execution follows the recorded reads while their recorded values
     are the current semantic values, so it reads the first changed edge again. -/
-theorem run_prefix {P r fe} (hfe : FetchSpec P r fe) : ∀ pre b s f o post x,
-    WfB r b → Inv P s → f.ca ≤ s.cur →
+theorem run_prefix {P r fe} (hfe : FetchSpec P r fe) : ∀ b, WfB r b → ∀ pre s f o post x,
+    Inv P s → f.ca ≤ s.cur →
     (replay b (obsPairs (pre ++ o :: post))).isSome →
     (∀ o', o' ∈ pre → semDep P s.inp o'.dep = o'.val) →
     hot s o.dep → depInfo s o.dep = some x →
     x.ca ≤ (runBody fe b s f).2.1.ca := by
-  intro pre
-  induction pre with
-  | nil =>
-    intro b s f o post x hb hI hf hrep _ hh hi
-    cases hb with
-    | ret v => simp [replay, obsPairs] at hrep
-    | read d0 k hd hk =>
+  intro b hb
+  induction hb with
+  | ret v =>
+    intro pre s f o post x _ _ hrep
+    cases pre <;> simp [replay, obsPairs] at hrep
+  | push v k _ ih =>
+    intro pre s f o post x hI hf hrep hpre hh hi
+    simp only [replay] at hrep
+    simp only [runBody]
+    exact ih pre s (f.accumulate v) o post x hI hf hrep hpre hh hi
+  | read d0 k hd hk ih =>
+    intro pre
+    cases pre with
+    | nil =>
+      intro s f o post x hI hf hrep _ hh hi
       simp only [List.nil_append, obsPairs, List.map_cons, replay] at hrep
       split at hrep
       · rename_i hdd
@@ -163,11 +229,8 @@ theorem run_prefix {P r fe} (hfe : FetchSpec P r fe) : ∀ pre b s f o post x,
         have := (run_ok hfe (k x.val) (hk x.val) s (f.push o.dep x) hI hf').2.2.2.1
         exact Nat.le_trans (by simp only [Frame.push]; exact Nat.le_max_right _ _) this
       · simp at hrep
-  | cons o1 pre ih =>
-    intro b s f o post x hb hI hf hrep hpre hh hi
-    cases hb with
-    | ret v => simp [replay, obsPairs] at hrep
-    | read d0 k hd hk =>
+    | cons o1 pre =>
+      intro s f o post x hI hf hrep hpre hh hi
       simp only [List.cons_append, obsPairs, List.map_cons, replay] at hrep
       split at hrep
       · rename_i hdd
@@ -179,19 +242,24 @@ theorem run_prefix {P r fe} (hfe : FetchSpec P r fe) : ∀ pre b s f o post x,
         rw [hval]
         have hf' : (f.push o1.dep rd.2).ca ≤ rd.1.cur := by
           simp only [Frame.push]; rw [g2.cur]; exact Nat.max_le.mpr ⟨hf, g6⟩
-        exact ih (k o1.val) rd.1 (f.push o1.dep rd.2) o post x (hk o1.val) g1 hf'
+        exact ih o1.val pre rd.1 (f.push o1.dep rd.2) o post x g1 hf'
           (by simpa [obsPairs] using hrep)
           (fun o' hm => by rw [g2.inp]; exact hpre o' (by simp [hm]))
           (hot_ext g2 hh) (depInfo_hot_ext g2 hh hi)
       · simp at hrep
 
+/-- what a successful walk knows about a recorded edge: verified now, unchanged since `rev`, and
+    if the walk's flag is `Empty` the dependency has no accumulated values and an `Empty` flag -/
+def EdgeOk (t : State) (rev : Nat) (flag : Bool) (o : Obs) : Prop :=
+  hot t o.dep ∧ ∃ x, depInfo t o.dep = some x ∧ x.ca ≤ rev ∧
+    (flag = false → x.hasAcc = false ∧ x.accIn = false)
+
 theorem deep_ok {P r mc} (hmc : McaSpec P r mc) : ∀ obs s rev, Inv P s →
     (∀ o q', o ∈ obs → o.dep = .qry q' → q' < r ∧ ∃ m, s.memos q' = some m) →
     Inv P (deepEdges mc obs s rev).1 ∧ Ext s (deepEdges mc obs s rev).1 r ∧
-    ((deepEdges mc obs s rev).2 = true → ∀ o, o ∈ obs → o.recd = true →
-        hot (deepEdges mc obs s rev).1 o.dep ∧
-        ∃ x, depInfo (deepEdges mc obs s rev).1 o.dep = some x ∧ x.ca ≤ rev) ∧
-    ((deepEdges mc obs s rev).2 = false → ∃ pre o post x, obs = pre ++ o :: post ∧ o.recd = true ∧
+    ((deepEdges mc obs s rev).2.1 = true → ∀ o, o ∈ obs → o.recd = true →
+        EdgeOk (deepEdges mc obs s rev).1 rev (deepEdges mc obs s rev).2.2 o) ∧
+    ((deepEdges mc obs s rev).2.1 = false → ∃ pre o post x, obs = pre ++ o :: post ∧ o.recd = true ∧
         (∀ o', o' ∈ pre → o'.recd = true → hot (deepEdges mc obs s rev).1 o'.dep ∧
             ∃ x', depInfo (deepEdges mc obs s rev).1 o'.dep = some x' ∧ x'.ca ≤ rev) ∧
         hot (deepEdges mc obs s rev).1 o.dep ∧ depInfo (deepEdges mc obs s rev).1 o.dep = some x ∧
@@ -212,27 +280,28 @@ theorem deep_ok {P r mc} (hmc : McaSpec P r mc) : ∀ obs s rev, Inv P s →
       have first : Inv P (depChanged mc s o.dep rev).1 ∧ Ext s (depChanged mc s o.dep rev).1 r ∧
           hot (depChanged mc s o.dep rev).1 o.dep ∧
           ∃ x, depInfo (depChanged mc s o.dep rev).1 o.dep = some x ∧
-            (depChanged mc s o.dep rev).2 = decide (x.ca > rev) := by
+            (depChanged mc s o.dep rev).2.1 = decide (x.ca > rev) ∧
+            (depChanged mc s o.dep rev).2.2 = (x.hasAcc || x.accIn) := by
         cases hd : o.dep with
         | inp i =>
           simp only [depChanged]
-          exact ⟨hI, Ext.refl s r, trivial, _, rfl, rfl⟩
+          exact ⟨hI, Ext.refl s r, trivial, _, rfl, rfl, rfl⟩
         | qry q =>
           simp only [depChanged]
           obtain ⟨hq, hm⟩ := hpre o q (by simp) hd
-          obtain ⟨a1, a2, m, a3, a4, a5⟩ := hmc.ok s q rev hq hI hm
-          exact ⟨a1, a2, ⟨m, a3, by rw [a4, a2.cur]⟩, ⟨m.value, m.ca, m.dur⟩, by simp [depInfo, a3], a5⟩
-      obtain ⟨f1, f2, f3, x, f4, f5⟩ := first
-      by_cases hch : (depChanged mc s o.dep rev).2 = true
+          obtain ⟨a1, a2, m, a3, a4, a5, a6⟩ := hmc.ok s q rev hq hI hm
+          exact ⟨a1, a2, ⟨m, a3, by rw [a4, a2.cur]⟩, m.res, by simp [depInfo, a3], a5, a6⟩
+      obtain ⟨f1, f2, f3, x, f4, f5, f6⟩ := first
+      by_cases hch : (depChanged mc s o.dep rev).2.1 = true
       · simp only [hch, if_true]
         refine ⟨f1, f2, by simp, ?_⟩
         intro _
         refine ⟨[], o, rest, x, by simp, hrec, by simp, f3, f4, ?_⟩
         rw [f5] at hch
         exact of_decide_eq_true hch
-      · have hch' : (depChanged mc s o.dep rev).2 = false := by
-          cases h : (depChanged mc s o.dep rev).2 <;> simp_all
-        simp only [hch']
+      · have hch' : (depChanged mc s o.dep rev).2.1 = false := by
+          cases h : (depChanged mc s o.dep rev).2.1 <;> simp_all
+        simp only [hch', Bool.false_eq_true, if_false]
         have hpre' : ∀ o' q', o' ∈ rest → o'.dep = .qry q' →
             q' < r ∧ ∃ m, (depChanged mc s o.dep rev).1.memos q' = some m := by
           intro o' q' hm hd
@@ -248,8 +317,16 @@ theorem deep_ok {P r mc} (hmc : McaSpec P r mc) : ∀ obs s rev, Inv P s →
           simp only [List.mem_cons] at hm
           rcases hm with hm | hm
           · subst hm
-            exact ⟨hot_ext i2 f3, x, depInfo_hot_ext i2 f3 f4, hcle⟩
-          · exact i3 ht o' hm hr'
+            refine ⟨hot_ext i2 f3, x, depInfo_hot_ext i2 f3 f4, hcle, ?_⟩
+            intro hfl
+            simp only [Bool.or_eq_false_iff] at hfl
+            rw [f6] at hfl
+            simpa using hfl.1
+          · obtain ⟨b1, x', b2, b3, b4⟩ := i3 ht o' hm hr'
+            refine ⟨b1, x', b2, b3, ?_⟩
+            intro hfl
+            simp only [Bool.or_eq_false_iff] at hfl
+            exact b4 hfl.2
         · intro hf
           obtain ⟨pre, o2, post, x2, j1, j1r, j2, j3, j4, j5⟩ := i4 hf
           refine ⟨o :: pre, o2, post, x2, by simp [j1], j1r, ?_, j3, j4, j5⟩
